@@ -134,7 +134,14 @@ def record(case, res, ref):
                       'failures': num(f.get('attrs', {}).get('failures')),
                       'ncase': len(f.get('cases', [])), 'nerror': f.get('n_error', -2),
                       'nfailure': f.get('n_failure', -2), 'cases': cases})
+    # which tests each report file holds, in execution order (class order / doctest order)
+    suite_tests = {}
+    for c, cs in w['classes'].items():
+        suite_tests['tests.%s.xml' % c] = list(cs['tests'])
+    for did, d in w.get('doctests', {}).items():
+        suite_tests.setdefault('%s.xml' % d['name'].rpartition('.')[0], []).append(did)
     return {'id': case['id'], 'repeat': case['repeat'], 'illegal': case['illegal'],
+            'suiteTests': suite_tests or {'_': []},
             'tests': [{'t': t, 'ref': ref['ev'].get(t, [])} for t in own],
             'files': files, 'crashed': res.get('crashed', '') or ''}
 
@@ -243,7 +250,10 @@ def run(chk, tier, seed, replay=None):
                                        c['msg_classes'], c['args'],
                                        [t.get('name', '') for t in c['world']['tests'].values()]]))
         clause, arg = v
-        if clause:
+        if clause == 'DRIFT':
+            chk.extra['drift'] = chk.extra.get('drift', 0) + 1
+            chk.notes.append('DRIFT %s: testcase sequence of a report differs from the recording machine of XmlReport.tla' % c['id'])
+        elif clause:
             sig = '%s|%s' % (clause, arg) if clause in ('C17:malformed', 'C17:wrong-identity', 'C17:run-aborted') else clause
             chk.violation(sig, '%s (%s): kinds %s message classes %s args %s'
                           % (clause, arg, [t.get('kind') for t in c['world']['tests'].values()],
